@@ -10,7 +10,7 @@ use hifitime::{Epoch, TimeScale};
 
 pub fn meta() -> Meta {
     Meta {
-        rule: "events = (table) iteration forward / reverse / by index of LatestLeapSeconds and of LeapSecondsFile::from_path on the shipped list and on synthesized IERS-format files, compared entry by entry with the embedded IERS announcements, the shipped leap-seconds.list and the NAIF kernel's DELTA_AT block (all parsed by the harness); (conversion) UTC->TAI via to_time_scale / to_tai_duration, TAI->UTC of every image, TAI->UTC monotonicity over sorted batches, leap_seconds(true|false) / leap_seconds_iers / leap_seconds_with(file provider). Expected: M-LEAP (offset 0 before 1972-01-01, then the announced offsets). Generation: every instant ts_i +- {0..40} s +- {0,1,250,499999999,999999999} ns for the 28 entries (seed independent), random instants 1800-2200, pre-1972 (SOFA era) and post-2017 strata. Non-trivial = instant within 41 s of an entry, within 1 us before an entry, in 1960-1972, after the last entry, TAI image inside the dAT window; distinct = distinct UTC/TAI count hashes among those. Round 6: every synthesized file also with CRLF line endings; files with entries in 2037, 2041, 2200 and 9000 (timestamps beyond 2^32 s) and in the block layout of the shipped list; all provider calls guarded. Rounds 7-9: files of 4 KiB - 1 MiB whose header puts each power-of-two offset inside the last data line / inside the table / before it, 100 KB of notes after the table, a 200 KB comment line; one path rewritten six times and loaded after each write; about sixty std consumers of the provider's iterator (built-in table and every file) from nine positions in either single direction, incl. copies taken on the way (front/back mixing left open).",
+        rule: "events = (table) iteration forward / reverse / by index of LatestLeapSeconds and of LeapSecondsFile::from_path on the shipped list and on synthesized IERS-format files, compared entry by entry with the embedded IERS announcements, the shipped leap-seconds.list and the NAIF kernel's DELTA_AT block (all parsed by the harness); (conversion) UTC->TAI via to_time_scale / to_tai_duration, TAI->UTC of every image, TAI->UTC monotonicity over sorted batches, leap_seconds(true|false) / leap_seconds_iers / leap_seconds_with(file provider). Expected: M-LEAP (offset 0 before 1972-01-01, then the announced offsets). Generation: every instant ts_i +- {0..40} s +- {0,1,250,499999999,999999999} ns for the 28 entries (seed independent), random instants 1800-2200, pre-1972 (SOFA era) and post-2017 strata. Non-trivial = instant within 41 s of an entry, within 1 us before an entry, in 1960-1972, after the last entry, TAI image inside the dAT window; distinct = distinct UTC/TAI count hashes among those. Round 6: every synthesized file also with CRLF line endings; files with entries in 2037, 2041, 2200 and 9000 (timestamps beyond 2^32 s) and in the block layout of the shipped list; all provider calls guarded. Rounds 7-9: files of 4 KiB - 1 MiB whose header puts each power-of-two offset inside the last data line / inside the table / before it, 100 KB of notes after the table, a 200 KB comment line; one path rewritten six times and loaded after each write; about sixty std consumers of the provider's iterator (built-in table and every file) from nine positions in either single direction, incl. copies taken on the way (front/back mixing left open). Round 10: files of 33-128 entries; eight unusual layouts (Err or exactly the table in the file); mirror images of the table instants about 1900.",
         assumptions: &["ground truth = the 28 IERS announcements embedded in the harness; the shipped list file and NAIF kernel must agree with it (checked every run)"],
         mandatory: &["table/builtin", "table/file-shipped", "table/file-synth", "utc/within-41s-of-entry", "utc/last-microsecond-before-entry", "utc/sofa-era-1960-1972", "utc/after-last-entry", "tai/monotone-batch", "tai/round-trip", "provider/file-answers"],
         thorough_scale: 40,
